@@ -305,6 +305,35 @@ pub fn run(args: &Args) -> i32 {
         // whether the expression is acceptable at all (mixed units under !degrees) is the specification's call
         one(format!("a{i}"), ts, tag, Some(plan), &text, &yaml, &mut w, &mut stats);
     }
+    // (b2) unit forms: every tag x function x sexagesimal / number argument, alone and combined (fully unitized
+    //      expressions are the ones a tag must leave alone)
+    {
+        let mut k = 0;
+        for tag in ["", "deg", "rad"] {
+            for f in ["deg", "rad"] {
+                for arg in [Ast::Sex("12:30".into()), Ast::Sex("1:30:30.5".into()), Ast::Num("90".into()), Ast::Sex("0:0:1".into())] {
+                    let arg_s = match &arg { Ast::Sex(s) | Ast::Num(s) => s.clone(), _ => String::new() };
+                    let is_sex = matches!(arg, Ast::Sex(_));
+                    let mk = |a: Ast| Ast::Func(if f == "deg" { "deg" } else { "rad" }, Box::new(a));
+                    let rebuild = |s: &str| if is_sex { Ast::Sex(s.to_string()) } else { Ast::Num(s.to_string()) };
+                    let forms: Vec<Ast> = vec![
+                        mk(rebuild(&arg_s)),
+                        Ast::Neg(Box::new(mk(rebuild(&arg_s)))),
+                        Ast::Bin('+', Box::new(mk(rebuild(&arg_s))), Box::new(Ast::Func("rad", Box::new(Ast::Sex("1:30".into()))))),
+                        Ast::Bin('*', Box::new(mk(rebuild(&arg_s))), Box::new(Ast::Func("deg", Box::new(Ast::Num("2".into()))))),
+                    ];
+                    for a in forms {
+                        let (mut ts, mut plan) = (vec![], vec![]);
+                        emit(&a, 0, false, tag, &mut rng, &mut ts, &mut plan);
+                        let text = render_tokens(&ts, &mut rng);
+                        let yaml = yaml_of(&text, tag, &mut rng);
+                        one(format!("u{k}"), ts, tag, Some(plan), &text, &yaml, &mut w, &mut stats);
+                        k += 1;
+                    }
+                }
+            }
+        }
+    }
     // (c) token soups: valid token lists damaged at random (acceptance only)
     for i in 0..n {
         let dd = 1 + rng.below(3);
